@@ -52,7 +52,9 @@ Calls ==
     \* an argument named like the variable that names the partial: the name is resolved in the caller's scope
     Include_(V("pv"), <<Arg("pv", S("p2"))>>), Render_(V("pv"), <<Arg("pv", S("p2"))>>),
     RenderWith(V("pv"), S("p2"), "pv", <<>>), RenderFor(V("pv"), Range(1, 2), "pv", <<>>),
-    Include_(S("broken.liquid"), <<>>) }
+    Include_(S("broken.liquid"), <<>>),
+    \* partials whose source is empty or blank are partials like any other (under every policy)
+    Include_(S("empty"), <<>>), Render_(S("empty"), <<>>), Include_(S("blank"), <<>>), Render_(S("blank"), <<Arg("a", S("i"))>>) }
 
 \* two uses of related names within one parser lifetime (both spellings of a
 \* name, a broken name whose .liquid twin is fine), in both orders
@@ -65,13 +67,15 @@ Callers ==
   {<<c1, Txt("|"), c2, Txt("|"), c1, Txt("$")>> : c1 \in Duals, c2 \in Duals}
 
 Parts(body) ==
-  [n \in {"p", "p2", "q.liquid", "broken", "broken.liquid", "p.liquid"} |->
+  [n \in {"p", "p2", "q.liquid", "broken", "broken.liquid", "p.liquid", "empty", "blank"} |->
      CASE n = "p" -> [ok |-> TRUE, body |-> body]
        [] n = "p2" -> [ok |-> TRUE, body |-> P2Body]
        [] n = "q.liquid" -> [ok |-> TRUE, body |-> <<Txt("Q"), Read("a")>>]
        [] n = "broken" -> [ok |-> FALSE]
        [] n = "broken.liquid" -> [ok |-> TRUE, body |-> <<Txt("BL")>>]
-       [] n = "p.liquid" -> [ok |-> TRUE, body |-> <<Txt("PL"), Read("b")>>]]
+       [] n = "p.liquid" -> [ok |-> TRUE, body |-> <<Txt("PL"), Read("b")>>]
+       [] n = "empty" -> [ok |-> TRUE, body |-> <<>>]
+       [] n = "blank" -> [ok |-> TRUE, body |-> <<Txt(" ")>>]]
 
 DataChoices == { [n \in {"pv", "arr"} |-> IF n = "pv" THEN StrV("p") ELSE ArrV(<<IntV(8), IntV(9)>>)],
                  [n \in {"pv", "arr", "b"} |-> CASE n = "pv" -> StrV("p") [] n = "arr" -> ArrV(<<IntV(8)>>) [] n = "b" -> StrV("d")] }
